@@ -53,6 +53,7 @@ const adapterAST = `package PKG
 import (
 	"vhlib/hl"
 	"vhlib/ref"
+	"vhlib/rt"
 )
 
 type ad[U Uint] struct {
@@ -159,6 +160,11 @@ func ASTOf(b, e []int) []*ref.Node {
 // RuleName is the name of rule constant 1.
 func RuleName() string { return rul3s[1] }
 func (a *ad[U]) Sprint() string    { return a.p.SprintSyntaxTree() }
+func (a *ad[U]) PrintOut(pretty bool) string {
+	a.p.Pretty = pretty
+	defer func() { a.p.Pretty = false }()
+	return rt.CaptureStdout(func() { a.p.PrintSyntaxTree() })
+}
 func (a *ad[U]) BufferLen() int    { return len(a.p.buffer) }
 `
 
@@ -213,6 +219,7 @@ func (a *ad[U]) Execute() []ref.Ev   { return a.p.Tr }
 func (a *ad[U]) Trace() []ref.Ev     { return a.p.Tr }
 func (a *ad[U]) Tree() []*ref.Node   { return nil }
 func (a *ad[U]) Sprint() string      { return "" }
+func (a *ad[U]) PrintOut(bool) string { return "" }
 func (a *ad[U]) BufferLen() int      { return len(a.p.buffer) }
 `
 
